@@ -2,6 +2,7 @@
 # tools/try_seed.sh <Cnn> <A|B> [props...]  -- apply a seeded patch to a scratch copy of /repo, run demo both ways and the checks
 ID=$1; V=$2; shift 2
 SRC=/tmp/seed/$ID/_seed/$V
+[ -f "$SRC/patch.diff" ] || SRC=/tmp/seed/${ID}r2/_seed/$V
 [ -f "$SRC/patch.diff" ] || SRC=/verif/seeded/$ID-$V
 [ -f "$SRC/patch.diff" ] || { echo "no patch for $ID $V"; exit 2; }
 W=/tmp/seedchk/$ID$V
